@@ -306,6 +306,9 @@ def call_method(interp, base, name, node, args, kwargs, st):
                         mode="inplace", op="call:" + name, sub=None, rhs=args[0] if args else Val(), cur=None, result=None)
         return Val()
     if name in MUTATING_METHODS and base.kind not in ("str",):
+        fnode0 = node.func.value if isinstance(node.func, ast.Attribute) else None
+        if isinstance(fnode0, ast.Name) and fnode0.id not in st.env and not interp._in_closure(fnode0.id) and base.kind in ("dict", "list", "set", "other"):
+            interp.emit(st, "global-write", node, name=fnode0.id, rhs=args[0] if args else Val())
         if base.al:
             interp.write_inplace(base, "call:" + name, None, args[0] if args else Val(), st, node, cur_val=base)
         # update the local container bound to a plain name
